@@ -185,6 +185,65 @@ Theorem C07_accept_drop_complete : forall m script s0 lsa sa sb lp s1 ls2 s2,
   accept_drop m script (List.length (s_out s2)) (s_out s2) (map req_key (s_reqs s2)) = true.
 Proof. exact accept_drop_complete. Qed.
 
+(* the client-side page timeout racing the fetch (T cases of the tie): an observation accepted
+   through [accept_full_timeout] is a full read of the SAME pages under an environment that
+   differs from the script only by the timeout striking an earlier attempt, and satisfies the
+   property predicate for that environment *)
+Theorem C07_early_timeout_sound : forall m nodes script ctor oi ok,
+  accept_full_timeout m script ctor oi ok = true -> plans_ok nodes script = true ->
+  exists sc, In sc (early_timeouts script) /\ plans_ok nodes sc = true /\
+    script_pages sc = script_pages script /\
+    (known_ignored m (List.length nodes) sc = false ->
+       prop_full_ok m (List.length nodes) sc oi ok = true).
+Proof. exact early_timeout_sound. Qed.
+
+(* the environments it ranges over, and the streams they admit: cutting a page's faults after i
+   and striking there either yields the timeout error or the outcome the page had anyway; with
+   the earlier pages returning rows, the stream is their rows, the timeout error, the end *)
+Theorem C07_early_timeout_shape : forall script sc, In sc (early_timeouts script) ->
+  exists pre ps rest i, script = pre ++ ps :: rest /\ sc = pre ++ with_timeout i ps :: rest /\
+    (i <= List.length (ps_faults ps))%nat.
+Proof. exact early_timeouts_shape. Qed.
+
+Theorem C07_early_timeout_cut : forall m n ps i,
+  spec_page m n (with_timeout i ps) = PoErr e_timeout \/
+  spec_page m n (with_timeout i ps) = spec_page m n ps.
+Proof. exact early_timeout_cut. Qed.
+
+Theorem C07_early_timeout_stream : forall m n pre ps rest i first,
+  (forall q, In q pre -> exists rows st, spec_page m n q = PoResp (RRows rows (Some st))) ->
+  spec_page m n (with_timeout i ps) = PoErr e_timeout ->
+  expected true m n first (pre ++ with_timeout i ps :: rest) =
+    Some (spec_error_stream (script_pages (pre ++ ps :: rest)) (List.length pre) e_timeout).
+Proof. exact early_timeout_stream. Qed.
+
+(* target identities, for EVERY plan oracle (any duplicate-free non-empty plans, any faults): the
+   requests of page i+1 start at the node that answered page i; RetrySameTarget and a transparent
+   re-prepare stay on the node; RetryNextTarget and a connection that cannot be acquired move to
+   a node not used before in this page; the plan running out ends the page's requests.
+   [coord_ok] is the relation the tie evaluates on the node of every request seen by the mock. *)
+Theorem C07_coordinator_stability : forall script, Forall plan_fine script ->
+  coord_ok None script (seq_targets script) = true.
+Proof. exact (fun script => coord_thm script None). Qed.
+
+Theorem C07_seq_targets_are_requests : forall script,
+  (exists rows p rq0, start MSession script = (rq0, SPager rows p)) ->
+  flat_map tag_page (enumerate_from 0 (seq_targets script)) =
+  map (fun r => (rq_page r, rq_target r)) (fst (seq_run MSession script)).
+Proof. exact seq_targets_reqs. Qed.
+
+(* resuming with a caller-supplied PagingState (query_single_page / execute_single_page): every
+   attempt of the request, retries included, carries exactly that state, and the caller gets
+   what the decisions mean *)
+Theorem C07_single_page_state : forall nodes st ps, NoDup nodes -> page_ok nodes ps ->
+  (forall k, In k (fst (single_run st ps)) -> k = (0%nat, st)) /\
+  match single_expected (List.length nodes) ps with
+  | PoResp r => exists c, snd (single_run st ps) = FCompleted c r
+  | PoErr e => snd (single_run st ps) = FFailed e
+  | PoIgnored e => exists c, snd (single_run st ps) = FIgnored c
+  end.
+Proof. exact single_thm. Qed.
+
 (* ---- non-vacuity: concrete scripts and schedules ---------------------------------------- *)
 Definition ex_script : list pscript :=
   [ mk_ps [0; 1; 2] [FErr 4097 DSame] (RRows [1; 2] (Some [170]));
@@ -345,6 +404,43 @@ Example C07_ex_spec :
   good_script MSession [mk_ps [0] [FErr 1 DNext] (RRows [1] None)] = false.
 Proof. repeat split; vm_compute; reflexivity. Qed.
 
+Definition ex_t_script : list pscript :=
+  [ mk_ps [0; 1] [] (RRows [1] (Some [7])); mk_ps [0; 1] [FErr 4097 DSame; FTimeout] (RRows [2] None) ].
+Example C07_ex_early_timeout :
+  List.length (early_timeouts ex_t_script) = 4%nat /\
+  (* scripted: page 1 times out on its second attempt *)
+  accept_full MSession ex_t_script [IRow 1; IErr 65536; IEnd] [(0%nat, None); (1%nat, Some [7]); (1%nat, Some [7])] = true /\
+  (* stall: the timeout strikes page 1's first attempt, or already page 0 (constructor error) *)
+  accept_full_timeout MSession ex_t_script false [IRow 1; IErr 65536; IEnd] [(0%nat, None); (1%nat, Some [7])] = true /\
+  accept_full_timeout MSession ex_t_script true [IErr 65536; IEnd] [(0%nat, None)] = true /\
+  (* not admissible: a lost row, a swallowed error, a timeout after the scripted one *)
+  accept_full_timeout MSession ex_t_script false [IErr 65536; IEnd] [(0%nat, None); (1%nat, Some [7])] = false /\
+  accept_full_timeout MSession ex_t_script false [IRow 1; IEnd] [(0%nat, None); (1%nat, Some [7])] = false /\
+  accept_full_timeout MSession ex_t_script false [IRow 1; IRow 2; IEnd] [(0%nat, None); (1%nat, Some [7]); (1%nat, Some [7])] = false.
+Proof. repeat split; vm_compute; reflexivity. Qed.
+
+Example C07_ex_coord :
+  seq_targets ex_script = [[0; 0]; [0; 1]; [1]] /\
+  coord_ok None ex_script [[0; 0]; [0; 1]; [1]] = true /\
+  (* another plan order is fine as long as the rules hold *)
+  coord_ok None ex_script [[1; 1]; [1; 0]; [0]] = true /\
+  (* page 1 not started at the node that answered page 0 *)
+  coord_ok None ex_script [[0; 0]; [1; 2]; [2]] = false /\
+  (* RetrySameTarget that moved *)
+  coord_ok None ex_script [[0; 1]; [1; 2]; [2]] = false /\
+  (* RetryNextTarget that stayed *)
+  coord_ok None ex_script [[0; 0]; [0; 0]; [0]] = false /\
+  (* page 2 not started at the node that answered page 1 *)
+  coord_ok None ex_script [[0; 0]; [0; 1]; [0]] = false.
+Proof. repeat split; vm_compute; reflexivity. Qed.
+
+Example C07_ex_single :
+  single_run (Some [9; 9]) (mk_ps [0; 1] [FErr 4097 DSame; FErr 4098 DNext] (RRows [5] (Some [1])))
+    = ([(0%nat, Some [9; 9]); (0%nat, Some [9; 9]); (0%nat, Some [9; 9])], FCompleted 1 (RRows [5] (Some [1]))) /\
+  single_run None (mk_ps [0] [FErr 8704 DDont] (RRows [5] None)) = ([(0%nat, None)], FFailed 8704) /\
+  single_expected 1 (mk_ps [0] [FErr 4098 DNext] (RRows [5] None)) = PoErr 4098.
+Proof. repeat split; vm_compute; reflexivity. Qed.
+
 Print Assumptions C07_rows.
 Print Assumptions C07_rows_safety.
 Print Assumptions C07_ends.
@@ -364,3 +460,10 @@ Print Assumptions C07_accept_full_complete.
 Print Assumptions C07_accept_drop_sound.
 Print Assumptions C07_accept_drop_complete.
 Print Assumptions C07_ignored_write_error_ends_silently.
+Print Assumptions C07_early_timeout_sound.
+Print Assumptions C07_early_timeout_shape.
+Print Assumptions C07_early_timeout_cut.
+Print Assumptions C07_early_timeout_stream.
+Print Assumptions C07_coordinator_stability.
+Print Assumptions C07_seq_targets_are_requests.
+Print Assumptions C07_single_page_state.
